@@ -307,7 +307,7 @@ def run():
   # (a) parser mode: CrossHair proposes fragments whose parse depends on the module-level switch;
   # a violation is claimed only if a program containing the incantation really changes the
   # SQL of a later compilation of the same text
-  r2 = kern.check(HEAD, ['k_call_parse_mode_free'], timeout=120)
+  r2 = kern.check(HEAD, ['k_call_parse_mode_free'], timeout=900)
   v = r2['k_call_parse_mode_free'].get('verdict')
   cov = out.coverage.setdefault('kernels', {})
   cov['parser mode'] = {'crosshair_verdict': v, 'seconds': r2['k_call_parse_mode_free'].get('seconds')}
